@@ -1,22 +1,366 @@
 /-
-  Property C19 — counterfactual minimisation, SIMPLIFY, counterfactual ancestors, ancestral components, ctf-factor
-  factorisation.  (first theorems; extended below as the development proceeds)
+  Property C19 — counterfactual minimisation, SIMPLIFY, counterfactual ancestors, ancestral components and the
+  ctf-factor factorisation (Correa, Lee, Bareinboim 2022) as implemented in
+  src/y0/algorithm/counterfactual_transport/{ancestor_utils,api}.py.
+
+  Only property theorems and non-vacuity examples live here; helper lemmas are in Y0/Lemmas/Ctf*.lean.
+  Every theorem is about the executable models Y0.Model.{Ctf,CtfSimplify,CtfFactor}, which the correspondence check
+  (harness/props/c19.py) compares with the real functions on every run.
+
+  Reading guide.  `AncBar g X y a` : a ∈ An(y) in G with the edges INTO X removed;  `AncUnder g X y a` : … OUT OF X removed;
+  `IsMinimised`, `IsCtfAncestor`, `FactorForm`, `Linked`, `SameComponent` are the relational definitions of
+  Y0/Spec/CtfSpec.lean.  `g.WF` is what `NxMixedGraph.from_edges` guarantees (`MG.wf_fromEdges`).
 -/
-import Y0.Model.Ctf
-import Y0.Model.CtfSimplify
-import Y0.Model.CtfFactor
+import Y0.Lemmas.Ctf
 
 namespace Y0.Ctf
+open Relation Y0.MG
+
+/-! ## 1. minimisation ‖Y_x‖ : total, well formed, equal to the published definition -/
 
 /-- a `CounterfactualVariable` produced by the constructor has at least one intervention -/
 theorem mkCf_ok (n : Name) (s : Option Bool) (ivs : List Iv) (v : Var) (h : mkCf n s ivs = .ok v) :
-    v.ivs ≠ [] ∧ v.name = n ∧ v.star = s := by
+    v.ivs ≠ [] ∧ v = { name := n, star := s, ivs := ivs } := by
   unfold mkCf at h
   split at h
   · cases h
   · rename_i hne
     cases h
-    refine ⟨?_, rfl, rfl⟩
-    intro h0; exact hne (by simpa using h0)
+    exact ⟨fun h0 => hne (by simpa using h0), rfl⟩
+
+/-- what `minimize` returns, spelled out: a non-counterfactual input is returned unchanged; otherwise the result has the
+same name and value mark and keeps exactly the interventions on `T = X ∩ An(Y)_{G_{\overline X}}` -/
+theorem minimize_eq (g : MG Name) (v w : Var) (h : minimize g v = .ok w) :
+    (v.isCf = false ∧ w = v) ∨
+    (v.isCf = true ∧ ∃ A, (g.removeInEdges (ivNames v)).ancestorsInclusive [v.name] = .ok A ∧
+      w = { name := v.name, star := v.star,
+            ivs := v.ivs.filter (fun i => decide (i.name ∈ (ivNames v).filter (fun x => decide (x ∈ A)))) }) := by
+  unfold minimize at h
+  split at h
+  · rename_i hcf
+    left
+    simp only [Bool.not_eq_eq_eq_not, Bool.not_true] at hcf
+    exact ⟨hcf, by cases h; rfl⟩
+  · rename_i hcf
+    right
+    simp only [Bool.not_eq_eq_eq_not, Bool.not_true, Bool.not_eq_false] at hcf
+    refine ⟨hcf, ?_⟩
+    simp only [bind, Except.bind] at h
+    cases hA : (g.removeInEdges (ivNames v)).ancestorsInclusive [v.name] with
+    | error e => rw [hA] at h; cases h
+    | ok A =>
+      rw [hA] at h
+      refine ⟨A, rfl, ?_⟩
+      simp only at h
+      split at h
+      · rename_i hemp
+        simp only [pure, Except.pure, Except.ok.injEq] at h
+        rw [← h]
+        simp only [List.isEmpty_iff] at hemp
+        rw [hemp]
+      · obtain ⟨_, hw⟩ := mkCf_ok _ _ _ _ h
+        exact hw
+
+/-- **F8a (totality).**  On a graph built by `from_edges`, minimising a variable whose name is a node never fails:
+in particular a subscript set none of which is an ancestor of the variable yields the plain variable. -/
+theorem minimize_total (g : MG Name) (hg : g.WF) (v : Var) (hv : v.name ∈ g.nodes) :
+    ∃ w, minimize g v = .ok w := by
+  unfold minimize
+  split
+  · exact ⟨v, rfl⟩
+  · obtain ⟨A, hA⟩ := ancestorsInclusive_total (g.removeInEdges (ivNames v)) [v.name]
+      (by intro s hs; simp only [List.mem_singleton] at hs; subst hs
+          exact (mem_nodes_removeInEdges g hg _ _).2 hv)
+    simp only [bind, Except.bind, hA]
+    split
+    · exact ⟨_, rfl⟩
+    · rename_i hne
+      unfold mkCf
+      simp only [hne]
+      exact ⟨_, rfl⟩
+
+/-- the only failure of `minimize` is the `NetworkXError` for a name that is not a node -/
+theorem minimize_error (g : MG Name) (hg : g.WF) (v : Var) (e : Err) (h : minimize g v = .error e) :
+    v.name ∉ g.nodes ∧ e = .internal "NetworkXError" := by
+  by_cases hv : v.name ∈ g.nodes
+  · obtain ⟨w, hw⟩ := minimize_total g hg v hv
+    rw [hw] at h; cases h
+  · refine ⟨hv, ?_⟩
+    unfold minimize at h
+    split at h
+    · cases h
+    · have herr := ancestorsInclusive_error (g.removeInEdges (ivNames v)) [v.name]
+        (by intro hall; exact hv ((mem_nodes_removeInEdges g hg _ _).1 (hall _ (by simp))))
+      simp only [bind, Except.bind, herr] at h
+      cases h; rfl
+
+/-- **well-formedness.**  The result of `minimize` has the name and value mark of the input, its interventions are
+among those of the input, and it is a `CounterfactualVariable` (never flagged as an `Intervention`) exactly when
+some intervention survives; with no surviving intervention it is the plain `Variable(name, star)`. -/
+theorem minimize_wf (g : MG Name) (v w : Var) (h : minimize g v = .ok w) :
+    w.name = v.name ∧ w.star = v.star ∧ (∀ i ∈ w.ivs, i ∈ v.ivs) ∧
+    (v.isCf = true → w.isIv = false) ∧ (v.isCf = false → w = v) := by
+  rcases minimize_eq g v w h with ⟨hcf, rfl⟩ | ⟨hcf, A, _, rfl⟩
+  · refine ⟨rfl, rfl, fun _ hi => hi, ?_, fun _ => rfl⟩
+    intro h'; rw [hcf] at h'; cases h'
+  · refine ⟨rfl, rfl, fun i hi => (List.mem_filter.1 hi).1, fun _ => rfl, ?_⟩
+    intro h'; rw [hcf] at h'; cases h'
+
+/-- **‖Y_x‖ is the published definition.**  For a counterfactual variable the surviving interventions are exactly those on
+`T = X ∩ An(Y)_{G_{\overline X}}`. -/
+theorem minimize_spec (g : MG Name) (v w : Var) (hcf : v.isCf = true) (h : minimize g v = .ok w) :
+    IsMinimised g v w := by
+  rcases minimize_eq g v w h with ⟨hcf', _⟩ | ⟨_, A, hA, rfl⟩
+  · rw [hcf] at hcf'; cases hcf'
+  · refine ⟨rfl, rfl, fun i => ?_⟩
+    simp only [List.mem_filter, decide_eq_true_eq, mem_ivNames]
+    rw [mem_anc_removeIn g _ _ _ hA, ancBar_congr g (ivNames v) (subNames v) (mem_ivNames v)]
+    constructor
+    · rintro ⟨hi, _, hanc⟩; exact ⟨hi, hanc⟩
+    · rintro ⟨hi, hanc⟩; exact ⟨hi, List.mem_map.2 ⟨i, hi, rfl⟩, hanc⟩
+
+/-- **interventional minimality.**  Minimising is idempotent: the result has no further causally irrelevant subscript. -/
+theorem minimize_idem (g : MG Name) (hg : g.WF) (v w : Var) (hv : v.name ∈ g.nodes) (h : minimize g v = .ok w) :
+    minimize g w = .ok w := by
+  have hwf := minimize_wf g v w h
+  obtain ⟨w', hw'⟩ := minimize_total g hg w (by rw [hwf.1]; exact hv)
+  rw [hw']
+  congr 1
+  rcases minimize_eq g w w' hw' with ⟨_, rfl⟩ | ⟨hcfw, A', hA', rfl⟩
+  · rfl
+  · -- `w` is counterfactual, hence so is `v`, and `w.ivs` is the filtered list
+    have hcfv : v.isCf = true := by
+      by_contra hn
+      have : w = v := hwf.2.2.2.2 (by simpa using hn)
+      subst this; exact hn hcfw
+    have hmin := minimize_spec g v w hcfv h
+    have hfilter : w.ivs.filter (fun i => decide (i.name ∈ (ivNames w).filter (fun x => decide (x ∈ A')))) = w.ivs := by
+      rw [List.filter_eq_self]
+      intro i hi
+      simp only [List.mem_filter, decide_eq_true_eq, mem_ivNames]
+      refine ⟨List.mem_map.2 ⟨i, hi, rfl⟩, ?_⟩
+      rw [mem_anc_removeIn g _ _ _ hA', ancBar_congr g (ivNames w) (subNames w) (mem_ivNames w), hmin.1]
+      refine ancBar_mono g (subNames v) (subNames w) ?_ _ _ ((hmin.2.2 i).1 hi).2
+      intro x hx
+      obtain ⟨j, hj, rfl⟩ := List.mem_map.1 hx
+      exact List.mem_map.2 ⟨j, ((hmin.2.2 j).1 hj).1, rfl⟩
+    rw [hfilter]
+    have hiv : w.isIv = false := hwf.2.2.2.1 hcfv
+    cases w
+    simp only [Var.mk.injEq, true_and, and_true]
+    exact hiv.symm
+
+/-! ## 2. ancestors of a counterfactual variable (Def. 2.1) -/
+
+/-- the element of `An(Y_x)` built for the graph ancestor `a` -/
+theorem ancestorVar_eq (gin : MG Name) (v : Var) (a : Name) (w : Var) (h : ancestorVar gin v a = .ok w) :
+    ∃ Aa, gin.ancestorsInclusive [a] = .ok Aa ∧
+      w = { name := a, ivs := v.ivs.filter (fun i => decide (i.name ∈ Aa)) } := by
+  unfold ancestorVar at h
+  simp only [bind, Except.bind] at h
+  cases hA : gin.ancestorsInclusive [a] with
+  | error e => rw [hA] at h; cases h
+  | ok Aa =>
+    rw [hA] at h
+    refine ⟨Aa, rfl, ?_⟩
+    simp only [pure, Except.pure, Except.ok.injEq] at h
+    rw [← h]
+    split
+    · rename_i hemp
+      simp only [List.isEmpty_iff] at hemp
+      rw [hemp]; rfl
+    · rfl
+
+/-- **Def. 2.1, soundness and completeness.**  For a counterfactual variable `Y_x` the model returns exactly the
+variables `W_z` with `W ∈ An(Y)_{G_{\underline X}}` and `z = x ∩ An(W)_{G_{\overline X}}` (completeness up to `==` of
+the Python objects, i.e. up to the order in which a frozenset of interventions is listed). -/
+theorem ctf_ancestors_spec (g : MG Name) (hg : g.WF) (v : Var) (hcf : v.isCf = true) (A : List Var)
+    (h : ctfAncestors g v = .ok A) :
+    (∀ w ∈ A, IsCtfAncestor g v w) ∧ (∀ w, IsCtfAncestor g v w → ∃ w' ∈ A, SameVar w' w) := by
+  unfold ctfAncestors at h
+  simp only [hcf, Bool.not_true, Bool.false_eq_true, ↓reduceIte, bind, Except.bind] at h
+  cases hU : (g.removeOutEdges (ivNames v)).ancestorsInclusive [v.name] with
+  | error e => rw [hU] at h; cases h
+  | ok U =>
+    rw [hU] at h
+    have hmem := mapM_ok_mem _ _ _ h
+    have hchar : ∀ w, w ∈ A → IsCtfAncestor g v w := by
+      intro w hw
+      obtain ⟨a, haU, haw⟩ := (hmem w).1 hw
+      obtain ⟨Aa, hAa, rfl⟩ := ancestorVar_eq _ _ _ _ haw
+      refine ⟨?_, rfl, rfl, fun i => ?_⟩
+      · exact (ancUnder_congr g _ _ (mem_ivNames v) _ _).1 ((mem_anc_removeOut g _ _ _ hU a).1 haU)
+      · simp only [List.mem_filter, decide_eq_true_eq]
+        rw [mem_anc_removeIn g _ _ _ hAa, ancBar_congr g (ivNames v) (subNames v) (mem_ivNames v)]
+    refine ⟨hchar, fun w hw => ?_⟩
+    have haU : w.name ∈ U :=
+      (mem_anc_removeOut g _ _ _ hU w.name).2 ((ancUnder_congr g _ _ (mem_ivNames v) _ _).2 hw.1)
+    -- the model's element for the ancestor `w.name`
+    have hnode : w.name ∈ (g.removeInEdges (ivNames v)).nodes := by
+      have hyn : v.name ∈ (g.removeOutEdges (ivNames v)).nodes := by
+        by_contra hn
+        have := ancestorsInclusive_error (g.removeOutEdges (ivNames v)) [v.name]
+          (by intro hall; exact hn (hall _ (by simp)))
+        rw [this] at hU; cases hU
+      have hy : v.name ∈ g.nodes := (mem_nodes_removeOutEdges g hg _ _).1 hyn
+      exact (mem_nodes_removeInEdges g hg _ _).2
+        (ancUnder_mem_nodes g hg _ _ _ hy hw.1)
+    obtain ⟨Aa, hAa⟩ := ancestorsInclusive_total (g.removeInEdges (ivNames v)) [w.name]
+      (by intro s hs; simp only [List.mem_singleton] at hs; subst hs; exact hnode)
+    have hok : ancestorVar (g.removeInEdges (ivNames v)) v w.name =
+        .ok { name := w.name, ivs := v.ivs.filter (fun i => decide (i.name ∈ Aa)) } := by
+      unfold ancestorVar
+      simp only [bind, Except.bind, hAa, pure, Except.pure]
+      split
+      · rename_i hemp
+        simp only [List.isEmpty_iff] at hemp
+        rw [hemp]; rfl
+      · rfl
+    refine ⟨_, (hmem _).2 ⟨w.name, haU, hok⟩, rfl, hw.2.1.symm, hw.2.2.1.symm, fun i => ?_⟩
+    rw [hw.2.2.2 i]
+    simp only [List.mem_filter, decide_eq_true_eq]
+    rw [mem_anc_removeIn g _ _ _ hAa, ancBar_congr g (ivNames v) (subNames v) (mem_ivNames v)]
+
+/-- a variable without subscripts: its counterfactual ancestors are its graph ancestors, as plain variables -/
+theorem ctf_ancestors_plain (g : MG Name) (hg : g.WF) (y : Name) (A : List Var)
+    (h : ctfAncestors g (Var.plain y) = .ok A) (w : Var) :
+    w ∈ A ↔ ∃ a, g.Anc [y] a ∧ w = Var.plain a := by
+  unfold ctfAncestors at h
+  simp only [Var.plain, Var.isCf, List.isEmpty_nil, Bool.not_true, Bool.not_false, ↓reduceIte,
+    Bool.false_eq_true, Option.isSome_none, bind, Except.bind] at h
+  cases hU : g.ancestorsInclusive [y] with
+  | error e => rw [hU] at h; cases h
+  | ok U =>
+    rw [hU] at h
+    simp only [pure, Except.pure, Except.ok.injEq] at h
+    subst h
+    simp only [List.mem_map, ancestorsInclusive_spec g hg _ _ hU, Var.plain]
+    constructor
+    · rintro ⟨a, ha, rfl⟩; exact ⟨a, ha, rfl⟩
+    · rintro ⟨a, ha, rfl⟩; exact ⟨a, ha, rfl⟩
+
+/-- **totality.**  `get_ancestors_of_counterfactual` succeeds on every counterfactual variable whose name is a node. -/
+theorem ctf_ancestors_total (g : MG Name) (hg : g.WF) (v : Var) (hcf : v.isCf = true) (hv : v.name ∈ g.nodes) :
+    ∃ A, ctfAncestors g v = .ok A := by
+  unfold ctfAncestors
+  simp only [hcf, Bool.not_true, Bool.false_eq_true, ↓reduceIte, bind, Except.bind]
+  obtain ⟨U, hU⟩ := ancestorsInclusive_total (g.removeOutEdges (ivNames v)) [v.name]
+    (by intro s hs; simp only [List.mem_singleton] at hs; subst hs
+        exact (mem_nodes_removeOutEdges g hg _ _).2 hv)
+  rw [hU]
+  apply mapM_ok_of_forall
+  intro a ha
+  have han : a ∈ g.nodes :=
+    ancUnder_mem_nodes g hg _ _ _ hv ((mem_anc_removeOut g _ _ _ hU a).1 ha)
+  obtain ⟨Aa, hAa⟩ := ancestorsInclusive_total (g.removeInEdges (ivNames v)) [a]
+    (by intro s hs; simp only [List.mem_singleton] at hs; subst hs
+        exact (mem_nodes_removeInEdges g hg _ _).2 han)
+  refine ⟨if (v.ivs.filter (fun i => decide (i.name ∈ Aa))).isEmpty then Var.plain a
+      else { name := a, ivs := v.ivs.filter (fun i => decide (i.name ∈ Aa)) }, ?_⟩
+  unfold ancestorVar
+  simp only [bind, Except.bind, hAa, pure, Except.pure]
+
+/-! ## 3. ctf-factor form (Def. 3.4) and conversion to it -/
+
+/-- the per-variable test of `is_counterfactual_factor_form` is the relational `FactorForm`: every parent is
+intervened on and the variable itself is not (for a variable without subscripts: it has no parent) -/
+theorem factorFormVar_spec (g : MG Name) (v : Var) :
+    factorFormVar (g.parents v.name) v = true ↔ FactorForm g v := by
+  unfold factorFormVar FactorForm subNames
+  by_cases hcf : v.isCf = true
+  · simp only [hcf, ↓reduceIte, Bool.and_eq_true, Bool.not_eq_eq_eq_not, Bool.not_true, List.any_eq_false,
+      beq_iff_eq, List.all_eq_true, List.any_eq_true, mem_parents, List.mem_map, not_exists, not_and]
+    constructor
+    · rintro ⟨h1, h2⟩
+      refine ⟨fun p hp => ?_, fun i hi => h1 i hi⟩
+      obtain ⟨i, hi, rfl⟩ := h2 p hp
+      exact ⟨i, hi, rfl⟩
+    · rintro ⟨h1, h2⟩
+      refine ⟨fun i hi => h2 i hi, fun p hp => ?_⟩
+      obtain ⟨i, hi, rfl⟩ := h1 p hp
+      exact ⟨i, hi, rfl⟩
+  · have hnil : v.ivs = [] := by
+      simp only [Var.isCf, Bool.not_eq_eq_eq_not] at hcf
+      simpa using hcf
+    simp only [hcf, Bool.false_eq_true, ↓reduceIte, List.isEmpty_iff, hnil, List.map_nil, List.not_mem_nil,
+      not_false_eq_true, and_true]
+    constructor
+    · intro h p hp
+      have : p ∈ g.parents v.name := (mem_parents g p v.name).2 hp
+      rw [h] at this; simp at this
+    · intro h
+      cases hp : g.parents v.name with
+      | nil => rfl
+      | cons p ps =>
+        exact absurd ((mem_parents g p v.name).1 (by rw [hp]; simp)) (fun hh => by simpa using h p hh)
+
+/-- **ctf-factor form.**  When every variable of the event is a node, `is_counterfactual_factor_form` answers, and it
+answers `True` exactly when every variable satisfies `FactorForm`. -/
+theorem factor_form_spec (g : MG Name) (ev : List Var) (hall : ∀ v ∈ ev, v.name ∈ g.nodes) :
+    ∃ b, isCtfFactorForm g ev = .ok b ∧ (b = true ↔ ∀ v ∈ ev, FactorForm g v) := by
+  induction ev with
+  | nil => exact ⟨true, rfl, by simp⟩
+  | cons v rest ih =>
+    obtain ⟨b, hb, hbiff⟩ := ih (fun x hx => hall x (by simp [hx]))
+    have hv : v.name ∈ g.nodes := hall v (by simp)
+    unfold isCtfFactorForm
+    simp only [predecessors, hv, ↓reduceIte, bind, Except.bind]
+    by_cases hf : factorFormVar (g.parents v.name) v = true
+    · simp only [hf, ↓reduceIte]
+      refine ⟨b, hb, ?_⟩
+      rw [hbiff]
+      simp only [List.mem_cons, forall_eq_or_imp]
+      exact ⟨fun h => ⟨(factorFormVar_spec g v).1 hf, h⟩, fun h => h.2⟩
+    · simp only [hf, Bool.false_eq_true, ↓reduceIte, pure, Except.pure]
+      refine ⟨false, rfl, ?_⟩
+      simp only [Bool.false_eq_true, List.mem_cons, forall_eq_or_imp, false_iff, not_and]
+      intro h; exact absurd ((factorFormVar_spec g v).2 h) hf
+
+/-- the only failure of `is_counterfactual_factor_form` is a variable that is not a node (`NetworkXError`) -/
+theorem factor_form_error (g : MG Name) (ev : List Var) (e : Err) (h : isCtfFactorForm g ev = .error e) :
+    ∃ v ∈ ev, v.name ∉ g.nodes := by
+  by_contra hn
+  simp only [not_exists, not_and, not_not] at hn
+  obtain ⟨b, hb, _⟩ := factor_form_spec g ev hn
+  rw [hb] at h; cases h
+
+/-- **conversion to ctf-factor form.**  `convert_to_counterfactual_factor_form` turns `W_s` into `W_{pa_W}`: the subscript
+names are exactly the parents of `W` (Def. 3.4), no value mark; the interventions of the input on parents are kept
+with their values, a parent that was not intervened on enters as `-P`. -/
+theorem convertOne_spec (g : MG Name) (v w : Var) (h : convertOne g v = .ok w) :
+    w.name = v.name ∧ w.star = none ∧ w.isIv = false ∧ ExactFactorForm g w ∧
+    (∀ i, i ∈ w.ivs ↔ g.DiEdge i.name v.name ∧
+      (i ∈ v.ivs ∨ (i.star = false ∧ ∀ j ∈ v.ivs, j.name ≠ i.name))) := by
+  unfold convertOne at h
+  by_cases hv : v.name ∈ g.nodes
+  swap
+  · simp only [predecessors, hv, ↓reduceIte, bind, Except.bind] at h; cases h
+  simp only [predecessors, hv, ↓reduceIte, bind, Except.bind, pure, Except.pure, Except.ok.injEq] at h
+  have hw : w = { name := v.name, ivs := convertIvs (g.parents v.name) v } := by
+    rw [← h]
+    split
+    · rename_i hemp
+      simp only [List.isEmpty_iff] at hemp
+      rw [hemp]; rfl
+    · rfl
+  subst hw
+  have hmem := mem_convertIvs g v
+  refine ⟨rfl, rfl, rfl, fun p => ?_, hmem⟩
+  simp only [subNames, List.mem_map]
+  constructor
+  · rintro ⟨i, hi, rfl⟩; exact ((hmem i).1 hi).1
+  · intro hp
+    by_cases hex : ∃ j ∈ v.ivs, j.name = p
+    · obtain ⟨j, hj, rfl⟩ := hex
+      exact ⟨j, (hmem j).2 ⟨hp, Or.inl hj⟩, rfl⟩
+    · exact ⟨⟨p, false⟩, (hmem _).2 ⟨hp, Or.inr ⟨rfl, fun j hj hjp => hex ⟨j, hj, hjp⟩⟩⟩, rfl⟩
+
+/-- the result of the conversion passes y0's own test (on a graph without self-loops) -/
+theorem convertOne_factorForm (g : MG Name) (v w : Var) (hloop : ¬ g.DiEdge v.name v.name)
+    (h : convertOne g v = .ok w) : FactorForm g w := by
+  obtain ⟨hn, _, _, hex, _⟩ := convertOne_spec g v w h
+  refine ⟨fun p hp => (hex p).2 hp, fun hself => ?_⟩
+  rw [hn] at hself
+  exact hloop (by simpa [hn] using (hex v.name).1 hself)
 
 end Y0.Ctf
